@@ -1064,6 +1064,53 @@ fn gen_misnested(rng: &mut Rng) -> (Program, Vec<&'static str>) {
     (prog, vec!["misnested-loops"])
 }
 
+/// programs that are run on every check, whatever the seed: shapes that past seeded changes needed and that the random
+/// generator reaches only with luck
+pub fn fixed_programs() -> Vec<(Program, Vec<&'static str>)> {
+    let n = |x: f64| E::Num(x);
+    let v = |s: &str| E::Var(s.into());
+    let call = |f: &str, a: E| E::Call(f.into(), vec![a]);
+    let bin = |op: &'static str, l: E, r: E| E::Bin(op, Box::new(l), Box::new(r));
+    let pr = |es: Vec<E>| S::Print(es.into_iter().map(|e| (e, ';')).collect(), false);
+    let mut out: Vec<(Program, Vec<&'static str>)> = vec![];
+    // functions that call functions with the SAME parameter name, two and three deep: the innermost binding wins in the
+    // callee, each caller's own binding is back after the call; a global of that name is untouched
+    out.push((vec![
+        (5, vec![S::Let("X".into(), None, n(100.0))]),
+        (10, vec![S::Def("FNA".into(), vec!["X".into()], bin("+", bin("*", v("X"), n(2.0)), n(1.0)))]),
+        (20, vec![S::Def("FNB".into(), vec!["X".into()], bin("+", call("FNA", bin("*", v("X"), n(10.0))), v("X")))]),
+        (30, vec![S::Def("FNC".into(), vec!["X".into()], bin("*", call("FNB", bin("+", v("X"), n(1.0))), v("X")))]),
+        (40, vec![pr(vec![call("FNA", n(3.0)), call("FNB", n(3.0)), call("FNC", n(3.0)), v("X")])]),
+    ], vec!["fixed", "same-name-parameters"]));
+    // different names: the callee sees the caller's parameter (dynamic scoping), not the global
+    out.push((vec![
+        (5, vec![S::Let("Y".into(), None, n(50.0))]),
+        (10, vec![S::Def("FNA".into(), vec!["X".into()], bin("+", v("X"), v("Y")))]),
+        (20, vec![S::Def("FNB".into(), vec!["Y".into()], bin("+", call("FNA", n(1.0)), v("Y")))]),
+        (30, vec![pr(vec![call("FNA", n(1.0)), call("FNB", n(7.0)), v("Y")])]),
+    ], vec!["fixed", "dynamic-scope"]));
+    // DIM of an array that exists: REDIM'D ARRAY whatever the size asked for (also one that would be too large, or one cell)
+    for size in [3.0, 20000.0, 0.0, 10.0] {
+        out.push((vec![
+            (10, vec![S::Dim("A".into(), vec![n(5.0)])]),
+            (20, vec![S::Let("A".into(), Some(vec![n(2.0)]), n(310.0))]),
+            (30, vec![pr(vec![E::Cell("A".into(), vec![n(2.0)])])]),
+            (40, vec![S::Dim("A".into(), vec![n(size)])]),
+            (50, vec![pr(vec![E::Str("unreached".into())])]),
+        ], vec!["fixed", "dim-existing"]));
+        // … and of one that exists because it was USED (11 cells)
+        out.push((vec![
+            (10, vec![S::Let("B".into(), Some(vec![n(2.0)]), n(1.0))]),
+            (20, vec![S::Dim("B".into(), vec![n(size)])]),
+            (30, vec![pr(vec![E::Str("unreached".into())])]),
+        ], vec!["fixed", "dim-existing"]));
+    }
+    // a new array that is too large, and one of exactly the cap
+    out.push((vec![(10, vec![S::Dim("C".into(), vec![n(20000.0)])]), (20, vec![pr(vec![E::Str("unreached".into())])])], vec!["fixed", "dim-too-large"]));
+    out.push((vec![(10, vec![S::Dim("C".into(), vec![n(9999.0)])]), (20, vec![S::Let("C".into(), Some(vec![n(9999.0)]), n(4.0))]), (30, vec![pr(vec![E::Cell("C".into(), vec![n(9999.0)])])])], vec!["fixed", "dim-at-cap"]));
+    out
+}
+
 pub fn gen_program(rng: &mut Rng, allow_else_resume: bool) -> (Program, Vec<&'static str>) {
     if rng.chance(1, 25) {
         return gen_many_loops(rng);
